@@ -466,3 +466,5 @@ def replay_get_md5(obligation, model, meta):
     if bad:
         return {'confirmed': True, 'inputs': bad, 'observed': bad.get('observed'), 'native_cmd': 'contracts/bounded_md5.py'}
     return {'confirmed': False, 'tried': n}
+
+replay_get_md5.real_system = True       # drives the real program on stock inputs: a crash inside repository code is a confirmed failure
